@@ -15,11 +15,19 @@ plugins on degenerate descriptor sets under time and memory limits.
 namespace Sebuf.C16
 open Sebuf
 
-/-- **guarded**: every recursive walk of the type graph consults a visited set, except the
-mock emitter (known finding C16 `crash:go-http:mock_recursive_response`). Walks of nested
-declarations and of a map entry's value field are structurally bounded. -/
-theorem guarded : ∀ t ∈ Gen.Recursion.sites, t.2.1 = "fieldgraph" →
-    t.2.2 = true ∨ t.1 = "internal/httpgen.generateMockFieldAssignments" := by decide
+/-- **guarded**: every recursive walk of the type graph consults a guard set before recursing
+(since `fix: go-http mock: do not recurse forever on recursive response types` the mock emitter
+too; entry `no_answer:go-http:mock_recursive_response`, fixed). Walks of nested declarations and of
+a map entry's value field are structurally bounded. -/
+theorem guarded : ∀ t ∈ Gen.Recursion.sites, t.2.1 = "fieldgraph" → t.2.2.1 = true := by decide
+
+/-- **visited sets are never released**: the guard of every walk is a visited set kept for the
+whole traversal (one visit per message, `collect_visits_once`) — except the mock emitter, whose
+guard is scoped to the current path: it terminates on every graph (`mock_guarded_terminates`) but
+repeats a shared type once per path (`mock_work_exponential`, an open finding). A walk that starts
+releasing its marks (e.g. `defer delete(processed, key)`) fails this theorem. -/
+theorem visited_sets_not_released : ∀ t ∈ Gen.Recursion.sites, t.2.1 = "fieldgraph" →
+    t.2.2.2 = false ∨ t.1 = "internal/httpgen.generateMockFieldAssignments" := by decide
 
 /-- the guarded walk visits every message at most once, whatever the graph. -/
 theorem collect_visits_once (g : Graph) (todo : List Str) : (collect g [] todo).Nodup :=
@@ -31,8 +39,8 @@ theorem collect_reaches (g : Graph) (todo : List Str) :
     (∀ n ∈ collect g [] todo, ∀ s ∈ succs g n, s ∈ collect g [] todo) :=
   ⟨collect_contains_roots g todo, collect_closed g todo⟩
 
-/-- **mock diverges**: the unguarded recursion of the mock emitter never finishes on a
-self-referential response type, for any amount of fuel (stack). -/
+/-- what the regression looked like: the UNGUARDED recursion the mock emitter had before the repair
+never finishes on a self-referential response type, for any amount of fuel (stack). -/
 theorem mock_diverges : ∀ fuel, mockAssign [("A".toList, ["A".toList])] fuel "A".toList = Outcome.outOfFuel :=
   mockAssign_diverges_on_self_loop
 
